@@ -18,7 +18,12 @@ open Irismod Irismod.Sdk Irismod.Token Irismod.Props.C10
 #print axioms faulty_mint_rejected
 #print axioms faulty_burn_rejected
 #print axioms swap_fee_exact
+#print axioms hook_conserves
 #print axioms conversion_step
+#print axioms evm_tx_target_irrelevant
+#print axioms log_of_unbound_emitter_ignored
+#print axioms log_of_bound_emitter_exact
+#print axioms evm_tx_conserves
 #print axioms conversions_conserve
 #print axioms boundinv_step
 #print axioms boundinv_genesis
@@ -31,6 +36,7 @@ def demo0 : State :=
 def demoOps : List Op :=
   [.issue "A0" "abc" "n1" "uabc" 6 5 0 true, .issue "A0" "eth" "n2" "wei" 18 0 0 true,
    .deploy "GOV" "erc" "abc" "uabc" 6, .swapToErc20 "A0" "E1" "uabc" 3000001, .swapToErc20 "A0" "A1" "uabc" 7,
-   .swapFromErc20 "A1" "A2" "uabc" 5, .hookSwap "E1" 1 "A3" 1, .swapFee "A0" "" "uabc" 1000000]
+   .swapFromErc20 "A1" "A2" "uabc" 5, .hookSwap "E1" 1 "A3" 1, .swapFee "A0" "" "uabc" 1000000,
+   .evmTx (.u 0) [{ emitter := .u 1, src := "E1", rcv := "A3", amount := 77 }, { emitter := .k 1, src := "E1", rcv := "A3", amount := 2 }]]
 def demo : State := run demo0 demoOps
-#eval s!"nonvacuous {supplyOf demo "uabc" == 5000000 - 3000001 - 7 + 5 + 1 - 1000000 && Spec.C10.evmTotal demo 1 == 3000001 + 7 - 5 - 1 && balOf demo "A2" "uabc" == 5 && balOf demo "A3" "uabc" == 1 && balOf demo "A0" "wei" == 1000000000000000000 && (step { demo with fault := "mint_noop" } (.swapToErc20 "A0" "E1" "uabc" 1)).toOption.isNone && (step demo (.swapToErc20 "A0" "E1" "uabc" 1)).toOption.isSome && lossLess 1234567 ⟨1000000000000000000⟩ 6 2 == some (1230000, 123)}"
+#eval s!"nonvacuous {supplyOf demo "uabc" == 5000000 - 3000001 - 7 + 5 + 1 - 1000000 + 2 && Spec.C10.evmTotal demo 1 == 3000001 + 7 - 5 - 1 - 2 && balOf demo "A2" "uabc" == 5 && balOf demo "A3" "uabc" == 3 && balOf demo "A0" "wei" == 1000000000000000000 && (step { demo with fault := "mint_noop" } (.swapToErc20 "A0" "E1" "uabc" 1)).toOption.isNone && (step demo (.swapToErc20 "A0" "E1" "uabc" 1)).toOption.isSome && lossLess 1234567 ⟨1000000000000000000⟩ 6 2 == some (1230000, 123)}"
